@@ -1,18 +1,25 @@
 import FxVerif.Model.C12
+import FxVerif.Proofs.C12Abi
 /-!
-# C12 confirm handler: acceptance characterisation and the invariant over arbitrary op sequences
+# C12 confirm handler: acceptance characterisation, refinement of the regenerated key plan to the specification, and the
+invariant over arbitrary op sequences (object stores, registry writes, confirms, pruning)
 -/
 namespace FxVerif.Model.C12
+open FxVerif.Gen.C12
 
 def Entry.slot (e : Entry) : ObjKey × Nat := (e.key, e.oracle)
 
-/-- what holds of every stored confirmation, in every reachable state -/
+/-- what holds of every stored confirmation, in every reachable state: the signature recovers to the external address
+registered for the oracle when it was accepted, over the checkpoint of the object that was stored under the very key the
+confirmation is filed under; it was submitted under that oracle's bridger -/
 def EntryOk (recover : List Nat → List Nat → Option String) (st : HState) (e : Entry) : Prop :=
   recover e.digest e.sig = some e.external ∧ e.recAt.external = e.external ∧ e.recAt.bridger = e.bridger ∧
-  st.objects.lookup e.key = some e.digest
+  st.ever.lookup e.key = some e.digest
 
 def Inv (recover : List Nat → List Nat → Option String) (st : HState) : Prop :=
-  (∀ e ∈ st.confirms, EntryOk recover st e) ∧ (st.confirms.map Entry.slot).Nodup
+  (∀ e ∈ st.confirms, EntryOk recover st e) ∧ (st.confirms.map Entry.slot).Nodup ∧
+  (∀ k d, st.objects.lookup k = some d → st.ever.lookup k = some d) ∧
+  (∀ k d, st.ever.lookup k = some d → k ∉ st.removed → st.objects.lookup k = some d)
 
 theorem hasConfirm_false_iff (st : HState) (k : ObjKey) (o : Nat) :
     hasConfirm st k o = false ↔ (k, o) ∉ st.confirms.map Entry.slot := by
@@ -39,45 +46,209 @@ theorem confirmStep_ok_iff (recover : List Nat → List Nat → Option String) (
   · rintro ⟨digest, sig, oracle, r, ho, hs, he, hr, h1, h2, h3, h4, rfl⟩
     simp [confirmStep, ho, hs, he, hr, h1, h2, h3, h4]
 
+/-! ## the regenerated key plan refines the specification -/
+
+theorem find?_key {ν : Type} (l : List (ObjKey × ν)) (key : ObjKey) (f : ObjKey → Bool) (hf : ∀ k, f k = (k == key)) :
+    l.find? (fun p => f p.1) = (l.lookup key).map (fun d => (key, d)) := by
+  have hf' : f = fun k => k == key := funext hf
+  subst hf'
+  induction l with
+  | nil => rfl
+  | cons p l ih =>
+    obtain ⟨k, d⟩ := p
+    by_cases h : k = key
+    · subst h; simp [List.find?_cons, List.lookup_cons]
+    · have h1 : (k == key) = false := by simpa using h
+      have h2 : (key == k) = false := by simpa using fun e => h e.symm
+      simp only [List.find?_cons, List.lookup_cons, h1, h2]
+      exact ih
+
+theorem keyMatches_full (key k : ObjKey) :
+    keyMatches key.kind ⟨(if key.kind == "batch" then some key.token else none), some key.nonce, false⟩ k = (k == key) := by
+  rw [Bool.eq_iff_iff]
+  cases key <;> cases k <;>
+    simp [keyMatches, ObjKey.kind, ObjKey.token, ObjKey.nonce, and_comm] <;> (try decide)
+
+theorem evalSlots_full (key found : ObjKey) :
+    evalSlots key found (fullKey key.kind) {} =
+      some ⟨(if key.kind == "batch" then some key.token else none), some key.nonce, false⟩ := by
+  cases key <;> simp [fullKey, ObjKey.kind, evalSlots, tokenExpr, nonceExpr, ObjKey.token, ObjKey.nonce] <;> decide
+
+theorem evalSlots_fullOracle (key found : ObjKey) :
+    evalSlots key found (fullKey key.kind ++ [("oracle", "oracle")]) {} =
+      some ⟨(if key.kind == "batch" then some key.token else none), some key.nonce, true⟩ := by
+  cases key <;> simp [fullKey, ObjKey.kind, evalSlots, tokenExpr, nonceExpr, ObjKey.token, ObjKey.nonce] <;> decide
+
+theorem refKey_full (key found : ObjKey) (r : KeyRef) (h : r.slots = fullKey key.kind ++ [("oracle", "oracle")]) :
+    refKey key.kind key found r = some key := by
+  unfold refKey
+  rw [h, evalSlots_fullOracle]
+  cases key <;> simp [ObjKey.kind, mkKey, ObjKey.token, ObjKey.nonce] <;> decide
+
+theorem findObject_full (st : HState) (key : ObjKey) (r : KeyRef) (h : r.slots = fullKey key.kind) :
+    findObject key.kind st key [r] = (st.objects.lookup key).map (fun d => (key, d)) := by
+  simp only [findObject, h, evalSlots_full]
+  rw [find?_key st.objects key _ (keyMatches_full key)]
+  cases st.objects.lookup key <;> rfl
+
+/-- for a plan that is `exact`, the handler driven by the regenerated plan IS the specified handler -/
+theorem confirmStepP_eq_confirmStep (P : Plan) (recover : List Nat → List Nat → Option String) (st : HState) (m : ConfirmMsg)
+    (hx : planExact P = true) (hk : P.kind = m.key.kind) : confirmStepP P recover st m = confirmStep recover st m := by
+  simp only [planExact, Bool.and_eq_true, beq_iff_eq, List.all_eq_true] at hx
+  obtain ⟨⟨⟨⟨⟨⟨⟨⟨⟨⟨_, hlen⟩, hlk⟩, hdup⟩, hst⟩, _⟩, _⟩, _⟩, _⟩, _⟩, _⟩ := hx
+  obtain ⟨r, hr⟩ := List.length_eq_one_iff.1 hlen
+  have hrs : r.slots = fullKey m.key.kind := by
+    have := (hlk r (by simp [hr])).1
+    rw [← hk]; exact this
+  have hd : P.dup.slots = fullKey m.key.kind ++ [("oracle", "oracle")] := by rw [← hk]; exact hdup
+  have hs : P.store.slots = fullKey m.key.kind ++ [("oracle", "oracle")] := by rw [hst, hd]
+  unfold confirmStepP confirmStep
+  rw [hr, hk, findObject_full st m.key r hrs]
+  cases st.objects.lookup m.key with
+  | none => rfl
+  | some digest =>
+    simp only [Option.map_some, refKey_full m.key m.key _ hd, refKey_full m.key m.key _ hs]
+
+/-! ## invariant -/
+
 theorem lookup_cons_ne {κ ν : Type} [BEq κ] [LawfulBEq κ] (k k' : κ) (v : ν) (l : List (κ × ν)) (h : k ≠ k') :
     ((k', v) :: l).lookup k = l.lookup k := by
   have hb : (k == k') = false := by simpa using h
   simp [List.lookup_cons, hb]
 
+theorem lookup_filter_ne {ν : Type} (l : List (ObjKey × ν)) (k k' : ObjKey) :
+    (l.filter (fun p => p.1 != k)).lookup k' = if k' = k then none else l.lookup k' := by
+  induction l with
+  | nil => simp
+  | cons p l ih =>
+    obtain ⟨a, b⟩ := p
+    by_cases ha : a = k
+    · subst ha
+      simp only [List.filter_cons, bne_self_eq_false, Bool.false_eq_true, if_false, ih]
+      by_cases hk : k' = a
+      · simp [hk]
+      · simp [hk, lookup_cons_ne _ _ _ _ hk]
+    · have : (a != k) = true := by simpa using ha
+      simp only [List.filter_cons, this, if_true]
+      by_cases hk : k' = k
+      · subst hk
+        have hne : k' ≠ a := fun e => ha e.symm
+        rw [lookup_cons_ne _ _ _ _ hne, ih]
+        simp
+      · by_cases hka : k' = a
+        · subst hka; simp [List.lookup_cons, hk]
+        · rw [lookup_cons_ne _ _ _ _ hka, lookup_cons_ne _ _ _ _ hka, ih]
+
+theorem nodup_map_filter {α β : Type} (f : α → β) (p : α → Bool) (l : List α) (h : (l.map f).Nodup) :
+    ((l.filter p).map f).Nodup := by
+  induction l with
+  | nil => simp
+  | cons a l ih =>
+    simp only [List.map_cons, List.nodup_cons] at h
+    simp only [List.filter_cons]
+    split
+    · simp only [List.map_cons, List.nodup_cons]
+      refine ⟨?_, ih h.2⟩
+      intro hm
+      apply h.1
+      simp only [List.mem_map, List.mem_filter] at hm ⊢
+      obtain ⟨x, ⟨hx, _⟩, hfx⟩ := hm
+      exact ⟨x, hx, hfx⟩
+    · exact ih h.2
+
+theorem inv_stepOther (recover : List Nat → List Nat → Option String) (st : HState) (op : Op) (h : Inv recover st) :
+    Inv recover (stepOther st op) := by
+  obtain ⟨h1, h2, h3, h4⟩ := h
+  cases op with
+  | addObject k d =>
+    simp only [stepOther]
+    split
+    · exact ⟨h1, h2, h3, h4⟩
+    · rename_i hk
+      have hnone : st.ever.lookup k = none := by
+        cases hh : st.ever.lookup k with
+        | none => rfl
+        | some v => rw [hh] at hk; simp at hk
+      have keep : ∀ k' d', st.ever.lookup k' = some d' → ((k, d) :: st.ever).lookup k' = some d' := by
+        intro k' d' hl
+        have hne : k' ≠ k := by intro e; rw [e, hnone] at hl; cases hl
+        rw [lookup_cons_ne _ _ _ _ hne]; exact hl
+      refine ⟨?_, h2, ?_, ?_⟩
+      · intro e he
+        obtain ⟨a, b, c, dd⟩ := h1 e he
+        exact ⟨a, b, c, keep _ _ dd⟩
+      · intro k' d' hl
+        show ((k, d) :: st.ever).lookup k' = some d'
+        by_cases hk' : k' = k
+        · subst hk'
+          have : ((k', d) :: st.objects).lookup k' = some d := by simp [List.lookup_cons]
+          have hl' : ((k', d) :: st.objects).lookup k' = some d' := hl
+          rw [this] at hl'
+          simp [List.lookup_cons, ← hl']
+        · have hl' : ((k, d) :: st.objects).lookup k' = some d' := hl
+          rw [lookup_cons_ne _ _ _ _ hk'] at hl' ⊢
+          exact h3 _ _ hl'
+      · intro k' d' hl hr
+        have hl' : ((k, d) :: st.ever).lookup k' = some d' := hl
+        show ((k, d) :: st.objects).lookup k' = some d'
+        by_cases hk' : k' = k
+        · subst hk'
+          simp only [List.lookup_cons, beq_self_eq_true] at hl' ⊢
+          exact hl'
+        · rw [lookup_cons_ne _ _ _ _ hk'] at hl' ⊢
+          exact h4 _ _ hl' hr
+  | setOracle o r => exact ⟨h1, h2, h3, h4⟩
+  | setIndex e o => exact ⟨h1, h2, h3, h4⟩
+  | confirm m => exact ⟨h1, h2, h3, h4⟩
+  | removeObject k dobj dconf =>
+    simp only [stepOther]
+    refine ⟨?_, ?_, ?_, ?_⟩
+    · intro e he
+      have he' : e ∈ st.confirms := by
+        cases dconf
+        · simpa using he
+        · simp only [if_true, List.mem_filter] at he; exact he.1
+      exact h1 e he'
+    · cases dconf
+      · simpa using h2
+      · simp only [if_true]; exact nodup_map_filter _ _ _ h2
+    · intro k' d' hl
+      cases dobj
+      · exact h3 _ _ (by simpa using hl)
+      · simp only [if_true, lookup_filter_ne] at hl
+        split at hl
+        · cases hl
+        · exact h3 _ _ hl
+    · intro k' d' hl hr
+      cases dobj
+      · simp only [Bool.false_eq_true, if_false] at hr ⊢
+        exact h4 _ _ hl hr
+      · simp only [if_true, List.mem_cons, not_or] at hr
+        simp only [if_true, lookup_filter_ne, hr.1, if_false]
+        exact h4 _ _ hl hr.2
+
 theorem inv_step (recover : List Nat → List Nat → Option String) (st : HState) (op : Op) (h : Inv recover st) :
     Inv recover (step recover st op) := by
   cases op with
-  | addObject k d =>
-    simp only [step]
-    split
-    · exact h
-    · rename_i hk
-      refine ⟨?_, h.2⟩
-      intro e he
-      obtain ⟨h1, h2, h3, h4⟩ := h.1 e he
-      refine ⟨h1, h2, h3, ?_⟩
-      have hne : e.key ≠ k := by
-        intro heq
-        rw [heq] at h4
-        simp [h4] at hk
-      show ((k, d) :: st.objects).lookup e.key = some e.digest
-      rw [lookup_cons_ne _ _ _ _ hne]; exact h4
-  | setOracle o r => exact h
-  | setIndex e o => exact h
   | confirm m =>
     simp only [step]
     cases hc : confirmStep recover st m with
     | error _ => exact h
     | ok st' =>
       obtain ⟨digest, sig, oracle, r, ho, _, _, _, hre, hrb, hrec, hdup, rfl⟩ := (confirmStep_ok_iff recover st st' m).1 hc
-      refine ⟨?_, ?_⟩
+      obtain ⟨h1, h2, h3, h4⟩ := h
+      refine ⟨?_, ?_, h3, h4⟩
       · intro e he
         simp only [List.mem_cons] at he
         rcases he with rfl | he
-        · exact ⟨hrec, hre, hrb, ho⟩
-        · exact h.1 e he
+        · exact ⟨hrec, hre, hrb, h3 _ _ ho⟩
+        · exact h1 e he
       · simp only [List.map_cons, List.nodup_cons]
-        exact ⟨(hasConfirm_false_iff st m.key oracle).1 hdup, h.2⟩
+        exact ⟨(hasConfirm_false_iff st m.key oracle).1 hdup, h2⟩
+  | addObject k d => exact inv_stepOther recover st _ h
+  | setOracle o r => exact inv_stepOther recover st _ h
+  | setIndex e o => exact inv_stepOther recover st _ h
+  | removeObject k a b => exact inv_stepOther recover st _ h
 
 theorem inv_run (recover : List Nat → List Nat → Option String) (st : HState) (ops : List Op) (h : Inv recover st) :
     Inv recover (run recover st ops) := by
@@ -87,5 +258,153 @@ theorem inv_run (recover : List Nat → List Nat → Option String) (st : HState
 
 theorem inv_init (recover : List Nat → List Nat → Option String) : Inv recover {} := by
   simp [Inv]
+
+/-! ## what the ghost fields record -/
+
+def Op.isRemove : Op → Bool
+  | .removeObject _ _ _ => true
+  | _ => false
+
+theorem removed_step (recover : List Nat → List Nat → Option String) (st : HState) (op : Op) (h : op.isRemove = false) :
+    (step recover st op).removed = st.removed := by
+  cases op with
+  | confirm m =>
+    simp only [step]
+    cases hc : confirmStep recover st m with
+    | error _ => rfl
+    | ok st' =>
+      obtain ⟨_, _, _, _, _, _, _, _, _, _, _, _, rfl⟩ := (confirmStep_ok_iff recover st st' m).1 hc
+      rfl
+  | addObject k d => simp only [step, stepOther]; split <;> rfl
+  | setOracle o r => rfl
+  | setIndex e o => rfl
+  | removeObject k a b => simp [Op.isRemove] at h
+
+theorem removed_run (recover : List Nat → List Nat → Option String) (st : HState) (ops : List Op)
+    (h : ∀ op ∈ ops, op.isRemove = false) : (run recover st ops).removed = st.removed := by
+  induction ops generalizing st with
+  | nil => rfl
+  | cons op ops ih =>
+    have := ih (step recover st op) (fun o ho => h o (by simp [ho]))
+    simp only [run, List.foldl_cons] at this ⊢
+    rw [this, removed_step recover st op (h op (by simp))]
+
+/-- every object ever stored was stored by an `addObject` of the sequence -/
+theorem ever_from_ops (recover : List Nat → List Nat → Option String) (st : HState) (ops : List Op) (k : ObjKey) (d : List Nat)
+    (h : (k, d) ∈ (run recover st ops).ever) : (k, d) ∈ st.ever ∨ Op.addObject k d ∈ ops := by
+  induction ops generalizing st with
+  | nil => exact Or.inl h
+  | cons op ops ih =>
+    have h' : (k, d) ∈ (run recover (step recover st op) ops).ever := h
+    rcases ih _ h' with hin | hin
+    · cases op with
+      | confirm m =>
+        simp only [step] at hin
+        cases hc : confirmStep recover st m with
+        | error _ => rw [hc] at hin; exact Or.inl hin
+        | ok st' =>
+          rw [hc] at hin
+          obtain ⟨_, _, _, _, _, _, _, _, _, _, _, _, rfl⟩ := (confirmStep_ok_iff recover st st' m).1 hc
+          exact Or.inl hin
+      | addObject k' d' =>
+        simp only [step, stepOther] at hin
+        split at hin
+        · exact Or.inl hin
+        · simp only [List.mem_cons] at hin
+          rcases hin with heq | hin
+          · cases heq; exact Or.inr (by simp)
+          · exact Or.inl hin
+      | setOracle o r => exact Or.inl hin
+      | setIndex e o => exact Or.inl hin
+      | removeObject k' a b => exact Or.inl hin
+    · exact Or.inr (by simp [hin])
+
+theorem mem_of_lookup {κ ν : Type} [BEq κ] [LawfulBEq κ] (l : List (κ × ν)) (k : κ) (v : ν) (h : l.lookup k = some v) :
+    (k, v) ∈ l := by
+  induction l with
+  | nil => simp at h
+  | cons p l ih =>
+    obtain ⟨a, b⟩ := p
+    by_cases hk : k = a
+    · subst hk; simp [List.lookup_cons] at h; simp [h]
+    · rw [lookup_cons_ne _ _ _ _ hk] at h; simp [ih h]
+
+/-- dropping the confirmations of a key leaves none filed under it -/
+theorem removeObject_drops (st : HState) (k : ObjKey) (dobj : Bool) :
+    ∀ e ∈ (stepOther st (.removeObject k dobj true)).confirms, e.key ≠ k := by
+  intro e he
+  simp only [stepOther, if_true, List.mem_filter] at he
+  simpa using he.2
+
+/-! ## the step function the driver runs equals the specified one when every plan is exact -/
+
+theorem find_kind (ps : List Plan) (k : ObjKey) (h : ps.map (·.kind) = ["batch", "oracleSet", "bridgeCall"]) :
+    ∃ P, P ∈ ps ∧ ps.find? (fun P => P.kind == k.kind) = some P ∧ P.kind = k.kind := by
+  obtain ⟨a, b, c, rfl⟩ : ∃ a b c, ps = [a, b, c] := by
+    match ps, h with
+    | [a, b, c], _ => exact ⟨a, b, c, rfl⟩
+    | [], h => simp at h
+    | [_], h => simp at h
+    | [_, _], h => simp at h
+    | _ :: _ :: _ :: _ :: _, h => simp at h
+  simp only [List.map_cons, List.map_nil, List.cons.injEq, and_true] at h
+  obtain ⟨ha, hb, hc⟩ := h
+  cases k
+  · exact ⟨b, by simp, by simp [List.find?_cons, ha, hb, ObjKey.kind], hb⟩
+  · exact ⟨a, by simp, by simp [List.find?_cons, ha, ObjKey.kind], ha⟩
+  · exact ⟨c, by simp, by simp [List.find?_cons, ha, hb, hc, ObjKey.kind], hc⟩
+
+theorem planFor_kind (k : ObjKey) (h : handlerPlans.map (·.kind) = ["batch", "oracleSet", "bridgeCall"])
+    : (planFor k).kind = k.kind := by
+  obtain ⟨P, _, hf, hk⟩ := find_kind handlerPlans k h
+  simp [planFor, hf, hk]
+
+theorem planFor_exact (k : ObjKey) (h : handlerPlans.map (·.kind) = ["batch", "oracleSet", "bridgeCall"])
+    (hx : handlerPlans.all planExact = true) : planExact (planFor k) = true := by
+  obtain ⟨P, hm, hf, _⟩ := find_kind handlerPlans k h
+  simp only [planFor, hf, Option.getD_some]
+  exact List.all_eq_true.1 hx P hm
+
+theorem stepG_eq_step (h : handlerPlans.map (·.kind) = ["batch", "oracleSet", "bridgeCall"])
+    (hx : handlerPlans.all planExact = true) (recover : List Nat → List Nat → Option String) (st : HState) (op : Op) :
+    stepG recover st op = step recover st op := by
+  cases op with
+  | confirm m =>
+    simp only [stepG, step, confirmStepG]
+    rw [confirmStepP_eq_confirmStep _ recover st m (planFor_exact m.key h hx) (planFor_kind m.key h)]
+  | addObject k d => rfl
+  | setOracle o r => rfl
+  | setIndex e o => rfl
+  | removeObject k a b => rfl
+
+theorem runG_eq_run (h : handlerPlans.map (·.kind) = ["batch", "oracleSet", "bridgeCall"])
+    (hx : handlerPlans.all planExact = true) (recover : List Nat → List Nat → Option String) (st : HState) (ops : List Op) :
+    runG recover st ops = run recover st ops := by
+  induction ops generalizing st with
+  | nil => rfl
+  | cons op ops ih =>
+    simp only [runG, run, List.foldl_cons] at ih ⊢
+    rw [stepG_eq_step h hx, ih]
+
+/-! ## store keys: byte layout is injective -/
+
+theorem toBE8_inj {a b : Nat} (ha : a < 2 ^ 64) (hb : b < 2 ^ 64) (h : toBE 8 a = toBE 8 b) : a = b := by
+  have h1 := fromBE_toBE 8 a
+  have h2 := fromBE_toBE 8 b
+  rw [h] at h1
+  have e : (256 : Nat) ^ 8 = 2 ^ 64 := by decide
+  rw [e] at h1 h2
+  rw [Nat.mod_eq_of_lt ha] at h1
+  rw [Nat.mod_eq_of_lt hb] at h2
+  omega
+
+/-- `p ++ t ++ be8 n ++ o` determines `t`, `n`, `o` when the texts have one length -/
+theorem key_layout_inj (p t1 t2 o1 o2 : List Nat) (n1 n2 : Nat) (hl : t1.length = t2.length)
+    (h1 : n1 < 2 ^ 64) (h2 : n2 < 2 ^ 64)
+    (h : p ++ (t1 ++ (toBE 8 n1 ++ o1)) = p ++ (t2 ++ (toBE 8 n2 ++ o2))) : t1 = t2 ∧ n1 = n2 ∧ o1 = o2 := by
+  have h' := List.append_cancel_left h
+  obtain ⟨ht, hr⟩ := List.append_inj h' hl
+  obtain ⟨hn, ho⟩ := List.append_inj hr (by simp)
+  exact ⟨ht, toBE8_inj h1 h2 hn, ho⟩
 
 end FxVerif.Model.C12
